@@ -1,8 +1,9 @@
+\* baseline, the retry may be killed as well (two crashes)
 CONSTANTS
  Scenarios <- Quick
  MaxCrash = 2
- MarkerMode = "rewrite"
- MarkerWindow = FALSE
+ MarkerMode = "ifbad"
+ MarkerWindow = TRUE
 INIT Init
 NEXT Next
 INVARIANTS TypeOK NoStuck CrashStateOK ReturnOK RetryOK
